@@ -142,7 +142,7 @@ def knownFamily (family : String) : Bool :=
 inductive CSRes where
   | defined (family : String) (n : Nat)
   | undefined      -- the name means nothing here: the operator is ignored
-  | outside        -- outside the domain (Pattern, a family used without its parameters, odd component counts)
+  | outside        -- outside the domain (Pattern, a family used without its parameters, no components)
   deriving Repr, DecidableEq
 
 /-- What the operand of `cs`/`CS` names: an entry of the current `ColorSpace` resources, else one of
@@ -150,7 +150,7 @@ the device colour spaces; the names of the other families need parameters and ca
 directly (outside the domain); any other name is undefined. -/
 def csResolve (res : Res) (name : String) : CSRes :=
   match lookupCS name res.cspaces with
-  | some (family, n) => if knownFamily family && (n = 1 || n = 3 || n = 4) then .defined family n else .outside
+  | some (family, n) => if knownFamily family && decide (0 < n) then .defined family n else .outside
   | none =>
     match deviceCS name with
     | some n => .defined name n
